@@ -217,11 +217,13 @@ def oracle_ack_timeliness(case, impl):
     tr = Trace(case, impl)
     hits = []
     owed_since = None
+    prev_lsa = None
     if any(l.startswith("vs tmode") for l in case):
         return []            # a transport that cannot send is judged by the model comparison only
     for ev in tr.events:
         if ev["op"] == "new":
             owed_since = None
+            prev_lsa = None
         if ev["op"] != "poll" or "fp" not in ev:
             continue
         if ev["res"].startswith("ready"):
@@ -231,10 +233,14 @@ def oracle_ack_timeliness(case, impl):
             owed_since = None
             continue
         owed = fp.get("lc") != fp.get("lsa")
+        lsa_moved = prev_lsa is not None and fp.get("lsa") != prev_lsa
+        prev_lsa = fp.get("lsa")
         if not owed:
             owed_since = None
             continue
-        if owed_since is None:
+        if owed_since is None or lsa_moved:
+            # (an ACK went out in this poll: it covered everything consumed before it; what is owed now was
+            # consumed in this poll, after that ACK)
             owed_since = ev["t"]
         if ev["t"] >= owed_since + 40_000_000:
             hits.append({"sig": {"oracle": "ack", "what": "late"},
@@ -1699,6 +1705,9 @@ def oracle_stuck(case, impl):
                 if highest is None or _md(d["seq"], highest) > 0:
                     highest = d["seq"]
                     sent_first += d["plen"]
+                elif d["seq"] in outstanding and outstanding[d["seq"]] != d["plen"]:
+                    # a re-segmented number (popped probe): it now carries more or fewer of the stream's bytes
+                    sent_first += d["plen"] - outstanding[d["seq"]]
                 outstanding[d["seq"]] = d["plen"]
         # a popped probe releases its number and its bytes: they count as never transmitted again
         try:
